@@ -14,6 +14,10 @@ CLAIMED["C06"] = ("property-based testing (Hypothesis): boundary-grid and random
          "Exploration: generated operands, literal texts and doubles; oracles are IEEE arithmetic in CPython, correctly rounded float(), shortest-round-trip repr(). Right level because the property quantifies over all doubles and literal shapes.",
          "Trusts CPython float()/repr()/math.fmod and that the engine transports doubles as bit patterns.",
          "DESIGN.md section 5 / C06")
+CLAIMED["C20"] = ("property-based testing (Hypothesis): differential against CPython int()/json/base64/hashlib/shlex/html/ast on generated and mutated inputs; inverse laws",
+         "Exploration: generated digit strings, generated+mutated JSON/YAML documents, random strings and byte arrays at hash-block boundaries, each compared with the CPython implementation of the standard function. Right level: the property is functional equality over unbounded string domains.",
+         "Trusts CPython int(), json (made strict), base64, hashlib, shlex, html, ast; RFC 4648 grammar as a regular expression; YAML agreement restricted to YAML-printable raw characters.",
+         "DESIGN.md section 5 / C20")
 NOT_YET = {}
 
 def main():
